@@ -81,8 +81,11 @@ def half (n : Nat) : Nat := (n + 1) / 2
 def upd (s : Nat → Rat × Rat) (i : Nat) (g : (Nat → Rat × Rat) → Rat × Rat) : Nat → Rat × Rat :=
   fun k => if k = i then g s else s k
 
-def xMiddle (xmin xmax : Rat) : Rat := (1 / 2 : Rat) * (xmax + xmin)
-def xHalfWidth (xmin xmax : Rat) : Rat := (1 / 2 : Rat) * (xmax - xmin)
+/-- `x_middle = 0.5*x_max + 0.5*x_min`, `x_half_width = 0.5*x_max - 0.5*x_min` (fix fddea92: the limits are halved
+    first so that neither the sum nor the difference overflows; over the rationals the same value as `0.5*(x_max ± x_min)`,
+    lemmas `xMiddle_eq`, `xHalfWidth_eq`) -/
+def xMiddle (xmin xmax : Rat) : Rat := (1 / 2 : Rat) * xmax + (1 / 2 : Rat) * xmin
+def xHalfWidth (xmin xmax : Rat) : Rat := (1 / 2 : Rat) * xmax - (1 / 2 : Rat) * xmin
 
 /-- the weight written for root `z` with derivative `pp`: `2 h / ((1 - z²) pp²)` -/
 def weightOf (h z pp : Rat) : Rat := 2 * h / ((1 - z * z) * pp * pp)
@@ -171,6 +174,29 @@ def valueOf (r : Except Err Rat) : Rat := match r with | .ok v => v | .error _ =
 def nestedGL (g : Rat → Rat → Rat) (lo hi : Rat → Rat) (a b : Rat) (nOut nIn : Nat) (z pp : Nat → Nat → Rat) :
     Except Err Rat :=
   integrateGL (fun x => valueOf (integrateGL (g x) (lo x) (hi x) nIn (z nIn) (pp nIn))) a b nOut (z nOut) (pp nOut)
+
+/-! ### the rule-taking overloads on raw rows (fix 455b721)
+
+`roots_and_weights` is a `vector<vector<double>>`: nothing forces a row to hold exactly a root and a weight.  Both
+rule-taking overloads now stop with a diagnostic at the first row whose length is not 2 (rows of length 0/1 used to be
+read out of bounds). -/
+
+def rowsOk (rows : List (List Rat)) : Bool := rows.all (fun r => r.length = 2)
+
+def toPairs (rows : List (List Rat)) : List (Rat × Rat) := rows.map (fun r => (r.getD 0 0, r.getD 1 0))
+
+/-- `Integrate_Gauss_Legendre(function_values, roots_and_weights)` on raw rows: size mismatch first, then the row shape
+    inside the summation loop -/
+def integrateGLvalsRows (vals : List Rat) (rows : List (List Rat)) : Except Err Rat :=
+  if vals.length ≠ rows.length then .error .diag
+  else if !rowsOk rows then .error .diag
+  else integrateGLvals vals (toPairs rows)
+
+/-- `Integrate_Gauss_Legendre(func, roots_and_weights)` on raw rows: the row shape is tested while the integrand is
+    tabulated (the integrand has been called for the rows before the offending one) -/
+def integrateGLruleRows (f : Rat → Rat) (rows : List (List Rat)) : Except Err Rat :=
+  if !rowsOk rows then .error .diag
+  else integrateGLvalsRows (rows.map (fun r => f (r.getD 0 0))) rows
 
 /-- the quadrature sum `Σ_{k<n} f(x_k) w_k` written directly -/
 def glSum (f : Rat → Rat) (n : Nat) (xmin xmax : Rat) (z pp : Nat → Rat) : Rat :=
